@@ -204,3 +204,90 @@ fn cover_unitset() {
     kani::cover!(r.units.is_empty(), "full cancellation reachable");
     kani::cover!(r.units.len() == 1);
 }
+
+// ---- C11: the GENERAL branch of UnitSet::scale_to (compound units), the
+// complete body extracted unchanged into a module of stand-ins: the quotient
+// `self / other` is formed by a stand-in `Div` that just lists self's units
+// with their exponents and other's with negated exponents (so WHICH is
+// divided by which is visible in the result) and subtracts a dimension count;
+// `scale_factor()` gives a stand-in number whose `powi` is exact for the
+// exponents used (the real f64::powi is an intrinsic CBMC over-approximates).
+// Checked: the factor is the product of the scale factors of SELF's units
+// over those of OTHER's, and different dimensions give None. ----
+pub(crate) mod general_branch {
+    #[derive(Clone, Copy, PartialEq, Debug)]
+    pub enum Unit {
+        None,
+        /// scale factor 96 (as `in` to `px`)
+        Big,
+        /// scale factor 1
+        Base,
+    }
+    pub struct F(f64);
+    impl F {
+        pub fn powi(self, p: i32) -> f64 {
+            match p {
+                0 => 1.0,
+                1 => self.0,
+                2 => self.0 * self.0,
+                -1 => 1.0 / self.0,
+                -2 => 1.0 / (self.0 * self.0),
+                _ => f64::NAN,
+            }
+        }
+    }
+    impl Unit {
+        pub fn scale_factor(&self) -> F {
+            F(if *self == Unit::Big { 96.0 } else { 1.0 })
+        }
+    }
+    #[derive(Clone, PartialEq, Debug)]
+    pub struct UnitSet {
+        pub units: Vec<(Unit, i8)>,
+        /// stand-in for the dimension vector: a count
+        pub dim: i8,
+    }
+    impl UnitSet {
+        pub fn is_none(&self) -> bool {
+            self.units.is_empty()
+        }
+        pub fn dimension(&self) -> Vec<(u8, i8)> {
+            if self.dim == 0 { vec![] } else { vec![(0, self.dim)] }
+        }
+        /// marker results: the shortcut branches are checked on the real
+        /// types above
+        pub fn scale_to_unit(&self, other: &Unit) -> Option<f64> {
+            Some(if *other == Unit::None { -2.0 } else { -1.0 })
+        }
+//@range file=rsass/src/value/unitset.rs impl="impl UnitSet" fn=scale_to
+//@  header: pub fn scale_to(&self, other: &Self) -> Option<f64>
+//@end
+    }
+    impl core::ops::Div for &UnitSet {
+        type Output = UnitSet;
+        fn div(self, rhs: Self) -> UnitSet {
+            let mut units = self.units.clone();
+            for (u, p) in &rhs.units {
+                units.push((*u, -*p));
+            }
+            UnitSet { units, dim: self.dim - rhs.dim }
+        }
+    }
+}
+/// C11: converting between compound units multiplies by the scale factors
+/// of the SOURCE's units and divides by those of the TARGET's (1 big*base is
+/// 96 base^2, not 1/96), and units of different dimension do not convert.
+#[kani::proof]
+#[kani::unwind(6)]
+fn c11_unitset_scale_to_general_branch_divides_self_by_other() {
+    use general_branch::{Unit as U, UnitSet as S};
+    let from = S { units: vec![(U::Big, 1), (U::Base, 1)], dim: 2 };
+    let to = S { units: vec![(U::Base, 2)], dim: 2 };
+    assert!(from.scale_to(&to) == Some(96.0), "big*base -> base^2: factor 96");
+    assert!(to.scale_to(&from) == Some(1.0 / 96.0), "base^2 -> big*base: factor 1/96");
+    let other_dim = S { units: vec![(U::Base, 2)], dim: 1 };
+    assert!(from.scale_to(&other_dim).is_none(), "different dimensions do not convert");
+    // the shortcut branches are still taken for a single-unit / unitless target
+    assert!(from.scale_to(&S { units: vec![(U::Base, 1)], dim: 1 }) == Some(-1.0));
+    assert!(from.scale_to(&S { units: vec![], dim: 0 }) == Some(-2.0));
+}
